@@ -301,7 +301,7 @@ func expectMethod(p sb.V, name string, args []sb.V) expect {
 			return expect{mode: "elem", repr: strconv.Quote("any:" + reprV(args[0]))}
 		}
 		return expect{mode: "nopanic"}
-	case "Var", "Self", "Join":
+	case "Var", "Self", "Join", "Named":
 		return expect{mode: "nopanic"}
 	}
 	return expect{mode: "error"}
@@ -319,6 +319,7 @@ func c16Containers() []sb.V {
 		{K: "map:float64:str", KV: []sb.V{vnum(1.5), vnum(2)}, E: []sb.V{vstr("x"), vstr("two")}},
 		{K: "map:uint8:str", KV: []sb.V{vk("uint8", 3)}, E: []sb.V{vstr("three")}},
 		{K: "map:bool:str", KV: []sb.V{{K: "bool", B: true}}, E: []sb.V{vstr("yes")}},
+		{K: "map:kstr:int", KV: []sb.V{vstr("a"), vstr("1")}, E: []sb.V{vnum(11), vnum(12)}},
 		{K: "arr", E: []sb.V{vnum(10), vstr("s"), {K: "null"}}},
 		{K: "arr"},
 		sl,
@@ -350,7 +351,7 @@ func c16Keys() []sb.V {
 }
 
 func c16Methods() []string {
-	return []string{"Greet", "PtrName", "Zero", "Nothing", "Two", "Sum", "F64", "Flag", "Any", "Var", "Join", "Self", "unexported", "Nope"}
+	return []string{"Greet", "PtrName", "Zero", "Nothing", "Two", "Sum", "F64", "Flag", "Any", "Var", "Join", "Named", "Self", "unexported", "Nope"}
 }
 
 func c16ArgLists() [][]sb.V {
